@@ -317,7 +317,8 @@ impl<'a> PGen<'a> {
                         let fam = CASE_FAMILIES.iter().find(|f| f.contains(&k.as_str())).unwrap();
                         parts.push(Part::Key(fam[u.below(3)].to_string()))
                     }
-                    Seg::K(k) => parts.push(if u.chance(1, 5) { Part::Star } else { Part::Key(k.clone()) }),
+                    // (the empty-string key cannot be named in a query: only wildcards reach it)
+                    Seg::K(k) => parts.push(if k.is_empty() || u.chance(1, 5) { Part::Star } else { Part::Key(k.clone()) }),
                 }
             }
         } else {
